@@ -381,6 +381,12 @@ def run(tier, seed, replay=None):
             distinct.add(cm.canon_hash([s1, s2, c.get("same_object", False)]))
     if R.proof_broken and not R.violations and not replay:
         targeted_search(R, tier)
+    if not replay:
+        try:
+            R.cov["implementation_statement_coverage"] = nb.statement_coverage(PID, cases, n=32 if tier == "quick" else 400,
+                                                                               workers=8 if tier == "quick" else 16)
+        except Exception as e:  # noqa
+            R.notes.append(f"statement coverage run failed: {type(e).__name__}: {e}")
     R.cov["distinct_nontrivial"] = len(distinct)
     R.cov["entry_point_calls"] = calls_total
     R.cov["max_support_evaluations_per_entry_point"] = maxcalls
